@@ -1,4 +1,5 @@
 import Nsq.Proofs.ToFileLines
+import Nsq.Tie.ToolsToFile
 /-!
 # C19, line level — every FINished message owns one whole, durable line (audit round 7: C5, C4)
 
@@ -11,6 +12,8 @@ duplicate bodies / ids allowed) to `(path, offset)` such that the file holds `bo
 that offset, the offset is a line start, the record lies inside the fsynced prefix (gzip: of the
 payload of closed members), and the byte ranges of different occurrences are pairwise disjoint.
 
+* `fin_owns_line_this_tree` — the statement about the checked tree (F46 85f4c48 + F47 efaf20c committed; shape
+  parameters computed by `Tie.ToolsToFile` and decided `true`);
 * `fin_owns_line_fixed`  — full statement for the tree with fix F47 (`Cfg.sealsTail`): every configuration,
   initial directory, event list (incl. foreign files and whole-record appends of a second writer), fault schedule.
 * `fin_owns_line_excl`   — the same without the fix whenever files are opened with O_EXCL (gzip / rotate-interval).
@@ -241,7 +244,29 @@ theorem shared_file_lines_fixed (c : Cfg) (h46 : c.oneWrite = true) (h47 : c.sea
   | ext p d => intro hh; cases hh
   | _ => trivial
 
+/-- the configuration of THIS tree: whatever the operator's options `c`, the two shape parameters are the Bools
+computed from the regenerated skeletons of `router()` / `updateFile()` (`Tie.ToolsToFile.routerOneWrite`,
+`updateFileSeals`) -/
+def treeCfg (c : Cfg) : Cfg :=
+  { c with oneWrite := Nsq.Tie.ToolsToFile.routerOneWrite, sealsTail := Nsq.Tie.ToolsToFile.updateFileSeals }
+
+/-- **THIS tree** (F46 = /repo 85f4c48 and F47 = /repo efaf20c are committed; audit B12): the ties accept only the fixed
+skeletons and decide both Bools `true`, so for every option set, every initial directory (torn tails included), every
+fault schedule and every event list in which other writers append whole records, every FINished message owns a line.
+A tree that reverts F46 or F47 fails `tree_one_write` / `tree_seals_tail` and this theorem with it. -/
+theorem fin_owns_line_this_tree (c : Cfg) (io : Nat → Fault) (fs0 : FS) (evs : List (Ev × Bool))
+    (henv : ∀ e ∈ evs, match e.1 with
+      | .extAppend _ d => nlEnded d
+      | _ => True) :
+    LinesSafe (run (treeCfg c) io (init fs0) evs).fs (run (treeCfg c) io (init fs0) evs).finished :=
+  shared_file_lines_fixed (treeCfg c) Nsq.Tie.ToolsToFile.tree_one_write Nsq.Tie.ToolsToFile.tree_seals_tail
+    io fs0 evs henv
+
 /-! ### non-vacuity -/
+
+/-- the tree's configuration of the plain-append options is the fully fixed one -/
+example : treeCfg cfgAppend = { cfgAppend with oneWrite := true, sealsTail := true } := by
+  simp [treeCfg, Nsq.Tie.ToolsToFile.tree_one_write, Nsq.Tie.ToolsToFile.tree_seals_tail]
 
 /-- whole-record interleaving of two fixed routers: `"C\n"` by the other router, `"B\n"` by this one, `"D\n"` … -/
 def cfgFixed : Cfg := { cfgAppend with oneWrite := true, sealsTail := true }
